@@ -1,6 +1,7 @@
 # specs.s3 -- the S3 cassette and facade under contract (C07 C10 C11 C15 C16 C17), over a ghost bucket (A5).
 #   bucket : key -> object (body), bdom : which keys exist, bmod : last-modified instant; blog : every mutation with the bucket state after it.
 import ast
+import os
 import z3
 
 from pyvc.vals import Val, NONE, S, B, I, K, LAT, TYP, sub, SeqV, Str, AVV, AVB, BASE, fresh, truthy, num, is_num, St, Unsupported, is_exc
@@ -14,7 +15,7 @@ from specs import a1
 from specs.a1 import CP, E_KIND, E_ID, E_DDOM, E_DMAP, E_MDOM, E_MMAP, MD
 from specs.cassettes import CasSpec, sym_recording, fetched_clauses
 
-REPO_ROOT = '/repo'
+REPO_ROOT = os.environ.get('PYVC_REPO', '/repo')
 S3M = 'playback.tape_cassettes.s3.s3_tape_cassette'
 S3 = S3M + ':S3TapeCassette.'
 FAC = 'playback.tape_cassettes.s3.s3_basic_facade:S3BasicFacade.'
@@ -168,7 +169,7 @@ class S3Spec(CasSpec):
 
 
 def mk():
-    repo = Repo(REPO_ROOT); spec = S3Spec(); ex = lib.install(Exec(repo, spec)); spec.install(ex)
+    repo = Repo(); spec = S3Spec(); ex = lib.install(Exec(repo, spec)); spec.install(ex)
     return repo, spec, ex
 
 
@@ -537,7 +538,7 @@ class FacadeSpec(S3Spec):
 
 
 def facade_state(qual, params):
-    repo = Repo(REPO_ROOT); spec = FacadeSpec(); ex = lib.install(Exec(repo, spec)); a1.install(ex)
+    repo = Repo(); spec = FacadeSpec(); ex = lib.install(Exec(repo, spec)); a1.install(ex)
     m, c, node, info = repo.find(qual)
     st = St(); st.g.update(bucket=z3.Array('BUCKET', Str, Val), bdom=z3.Array('BDOM', Str, z3.BoolSort()), blog=[])
     selfv = st.sym_obj('self', 'S3BasicFacade'); bn = fresh('bucket_name', Str); st.wr(selfv, 'bucket', Val.s(bn))
@@ -665,7 +666,7 @@ class IterKeysSpec(FacadeSpec):
 
 
 def facade_iter_keys(props=None):
-    repo = Repo(REPO_ROOT); spec = IterKeysSpec(); ex = lib.install(Exec(repo, spec)); a1.install(ex); ex.generator = True
+    repo = Repo(); spec = IterKeysSpec(); ex = lib.install(Exec(repo, spec)); a1.install(ex); ex.generator = True
     m, c, node, info = repo.find(FAC + 'iter_keys')
     st = St(); st.g.update(bucket=z3.Array('BUCKET', Str, Val), bdom=z3.Array('BDOM', Str, z3.BoolSort()), blog=[], yielded=[])
     selfv = st.sym_obj('self', 'S3BasicFacade'); bk = st.sym_obj('bucket_res', 'S3Bucket'); st.wr(selfv, '_bucket', bk); st.wr(bk, 'objects', st.sym_obj('objects', 'S3Objects'))
@@ -738,7 +739,7 @@ class RoundRobinSpec(S3Spec):
 
 
 def s3_iter_recording_ids(props=None):
-    repo = Repo(REPO_ROOT); spec = RoundRobinSpec(); ex = lib.install(Exec(repo, spec)); spec.install(ex); ex.generator = True
+    repo = Repo(); spec = RoundRobinSpec(); ex = lib.install(Exec(repo, spec)); spec.install(ex); ex.generator = True
     m, c, node, info = repo.find(S3 + 'iter_recording_ids')
     st = St(); st.g.update(bucket=z3.Array('BUCKET', Str, Val), bdom=z3.Array('BDOM', Str, z3.BoolSort()), blog=[], yielded=[], time=z3.IntVal(0))
     selfv = st.sym_obj('self', 'S3TapeCassette'); kp = fresh('key_prefix', Str); st.wr(selfv, 'key_prefix', Val.s(kp))
